@@ -430,7 +430,7 @@ fn subs() -> Vec<Sub> {
             }),
             ..ex
         },
-        gen_sub("triples", triples, |t| t.pick(30_000, 1_000_000), check),
+        gen_sub("triples", triples, |t| t.pick(120_000, 1_000_000), check),
         super::fuzzrun::fuzz_sub::<Case>("fuzz", "c12", check, wrap_fuzz),
     ]
 }
